@@ -207,6 +207,9 @@ func labelsOf(c Case, st simStats) []string {
 	add(st.sharedUpdateBlock, "field-block-of-an-update-produced-on-two-nodes")
 	add(st.lateJoin > 0, "late-joiner-merges-deep-dag-at-once")
 	add(st.lateJoinMerged > 0, "late-joiner-merges-two-branch-dag-at-once")
+	add(st.filteredUpdates > 0, "update-selected-by-filter")
+	add(st.indexServedUpdates > 0, "update-selected-by-condition-on-indexed-field")
+	add(st.inListUpdates > 0 && st.indexServedUpdates > 0, "update-selected-by-in-list-of-old-and-new-indexed-value")
 	diamond := false
 	for _, s := range c.Steps {
 		diamond = diamond || s.Kind == "deliverfrom"
